@@ -62,6 +62,19 @@ PROPS["C14"] = {
     "expect_probes": ["os.futex_wait_blocked"],
 }
 
+PROPS["C13"] = {
+    "level": "exploration",
+    "scenarios": {"defer": {"quick": 200000, "thorough": 5000000, "thorough_time": 900}},
+    "rule": "one evaluation = one seeded simulated execution of 1-4 threads registered for defer_rcu() queuing (function, argument) pairs with adversarial bit patterns "
+            "(NULL, 1, -1, the internal marker value -2, -3, odd values, a function at an odd address), bursts that wrap and fill a 8/16/32-entry queue (knob), "
+            "explicit rcu_defer_barrier()/rcu_defer_barrier_thread(), unregister + re-register, readers of an object reclaimed through defer_rcu(), and threads that stop calling the API and wait for the background reclaimer. "
+            "Oracles: per-thread invoked sequence equals queued sequence with exact arguments; interval oracle per call; barrier/unregister inclusion; reclaimer liveness within the quiet-phase bound; tracked-arena use-after-free. "
+            "Non-trivial = a deferred call's grace period overlapped an open section; distinct = distinct event-log fingerprints.",
+    "assumptions": COMMON_ASSUME + ["qsbr: the defer API is used from offline threads (an online qsbr thread counts as inside a read-side critical section, where defer_rcu() is forbidden)",
+                                    "function value equal to the internal marker (-2) is not generated: calling it would crash by definition"],
+    "expect_probes": ["defer.reclaimer_ran_everything", "defer.run_with_calls", "os.futex_wait_blocked"],
+}
+
 NOT_APPLICABLE = {}
 
 _SIM_NOTE = ("Trusted base: the usim runtime (scheduler, TSO model, simulated OS, tracked arena), gcc's access instrumentation, "
@@ -84,5 +97,8 @@ MANIFEST_TEXT = {
             "level_note": _SIM_NOTE},
     "C14": {"design_ref": "3.14",
             "level_text": "Seeded exploration of handles taken at arbitrary points of in-flight grace periods; interval oracle on every true poll, monotonicity, bounded eventual completion.",
+            "level_note": _SIM_NOTE},
+    "C13": {"design_ref": "3.13",
+            "level_text": "Seeded exploration of queuing threads, the reclaimer thread, barriers and (un)registration with adversarial function/argument encodings and small queue sizes; sequence-equality, interval and inclusion oracles.",
             "level_note": _SIM_NOTE},
 }
